@@ -18,6 +18,7 @@ import (
 	"os"
 	"path/filepath"
 	"sort"
+	"strings"
 
 	"golang.org/x/tools/go/ssa"
 )
@@ -31,6 +32,10 @@ type fnBinding struct {
 	Params []string              `json:"params"`
 	Loops  map[string][]nameType `json:"loops"`  // loop ordinal -> header phis in order
 	Locals []nameType            `json:"locals"` // named SSA values / address-taken variables, first-occurrence order
+	// closures only: signature and captured variables, so that a contract whose closure moved into an
+	// extracted helper (and therefore got another name) can be re-bound to it
+	Sig      string     `json:"sig,omitempty"`
+	FreeVars []nameType `json:"freevars,omitempty"`
 }
 
 type Bindings map[string]*fnBinding
@@ -48,6 +53,9 @@ func (e *Engine) bindingOf(fn *ssa.Function) *fnBinding {
 	b := &fnBinding{Loops: map[string][]nameType{}}
 	for _, p := range fn.Params {
 		b.Params = append(b.Params, p.Name())
+	}
+	if fn.Parent() != nil {
+		b.Sig, b.FreeVars = e.closureShape(fn)
 	}
 	if len(fn.Blocks) == 0 {
 		return b
@@ -219,4 +227,64 @@ func (e *Engine) localAlias(fn *ssa.Function, name string) string {
 		}
 	}
 	return ""
+}
+
+// closureShape: signature and the sorted (name, type) list of the captured variables.
+func (e *Engine) closureShape(fn *ssa.Function) (string, []nameType) {
+	var fvs []nameType
+	for _, fv := range fn.FreeVars {
+		fvs = append(fvs, nameType{fv.Name(), e.W.typeString(fv.Type())})
+	}
+	sort.Slice(fvs, func(i, j int) bool { return fvs[i].Name < fvs[j].Name })
+	return fn.Signature.String(), fvs
+}
+
+// rebindMovedClosures: a closure contract whose function no longer exists under its recorded name is
+// bound to the one uncontracted closure of the repository that has the recorded signature and
+// captures the recorded variables (a callback moved into an extracted helper). Ambiguity or no match
+// leaves the contract unbound, which is reported. The obligations are generated from the closure as
+// it is now; a wrong match can only make them fail.
+func (e *Engine) rebindMovedClosures() {
+	e.Rebound = map[string]*Contract{}
+	for _, c := range e.CS.Order {
+		if c.Kind != "func" && c.Kind != "closure" {
+			continue
+		}
+		if !strings.Contains(c.Name, "$") || e.Funcs[c.Name] != nil {
+			continue
+		}
+		rec := e.Recorded[c.Name]
+		if rec == nil || rec.Sig == "" {
+			continue
+		}
+		var cands []*ssa.Function
+		var names []string
+		for n := range e.Funcs {
+			names = append(names, n)
+		}
+		sort.Strings(names)
+		for _, n := range names {
+			fn := e.Funcs[n]
+			if fn.Parent() == nil || e.CS.ByName[n] != nil || e.Rebound[n] != nil {
+				continue
+			}
+			sig, fvs := e.closureShape(fn)
+			if sig != rec.Sig || len(fvs) != len(rec.FreeVars) {
+				continue
+			}
+			same := true
+			for i := range fvs {
+				if fvs[i] != rec.FreeVars[i] {
+					same = false
+				}
+			}
+			if same {
+				cands = append(cands, fn)
+			}
+		}
+		if len(cands) == 1 {
+			e.Rebound[e.fnName(cands[0])] = c
+			e.Funcs[c.Name] = cands[0]
+		}
+	}
 }
